@@ -16,7 +16,7 @@ THEOREMS = [
     # totality of the five docstring entry points (full; C01 builds on `total` and `frame_step`)
     "Docstring.ensure_total", "Docstring.doc_total", "Docstring.summary_total", "Docstring.extract_total",
     "Docstring.toc_total", "Docstring.total", "Docstring.total_old_counterexample", "Docstring.toc_old_spec",
-    "Docstring.base_get_summary_total", "Docstring.toc_spec", "Docstring.frame_step",
+    "Docstring.base_get_summary_total", "Docstring.toc_spec", "Docstring.toc_none_when_render_fails", "Docstring.frame_step",
     # fallback text / reporting
     "Docstring.fallback_full_text", "Docstring.fallback_uses_source_text", "Docstring.isolation_source",
     "Docstring.parse_fallback_full_text", "Docstring.ensure_fallback_full_text",
